@@ -46,10 +46,10 @@ def oracle(case, rec):
     H = brute(f1, f2, a2, e1, e2, mode)
     scale = 1e-12 * (1 + H.sum())
     outs = {}
-    ins = [x.copy() for x in (f1, f2, a2)]
+    ins = [x.copy() for x in (f1, f2, a2)]      # the routine gets the copies; the case stays pristine for the replay file
     for sq in (False, 'sum', 'mean'):
         try:
-            outs[sq] = np.asarray(emd.spectra.holospectrum(f1, f2, a2, e1.copy(), e2.copy(), mode=mode, squash_time=sq))
+            outs[sq] = np.asarray(emd.spectra.holospectrum(ins[0], ins[1], ins[2], e1.copy(), e2.copy(), mode=mode, squash_time=sq))
         except Exception as e:
             raise Violation('C11/raises/%s/squash=%s' % (type(e).__name__, sq), repr(e))
     if not all(np.array_equal(x, y) for x, y in zip(ins, (f1, f2, a2))):
